@@ -173,7 +173,7 @@ theorem writeLoop_no_panic (E : Enc σ) (hs : EncSane E) (n : Nat) : ∀ (fuel :
         · rw [if_pos harm1.1]; simp
         · exact ih w1 _ harm1
 
-theorem writeLoop_terminates (E : Enc σ) (rank : σ → Nat) (hp : EncProgress E rank) (n : Nat) :
+theorem writeLoop_terminates (E : Enc σ) (ops : Op → Prop) (rank : σ → Nat) (hp : EncProgress E ops rank) (hops : ops .process) (n : Nat) :
     ∀ (L R : Nat) (w : Writer σ) (rest : Bytes), rest.length = L → rank w.enc = R → 0 < w.bufSize →
       ∃ N, ∀ fuel, N ≤ fuel → (Writer.writeLoop E n fuel w rest).2 ≠ .livelock := by
   intro L
@@ -211,7 +211,7 @@ theorem writeLoop_terminates (E : Enc σ) (rank : σ → Nat) (hp : EncProgress 
                 by_cases hc : ans.consumed = 0
                 · have hlt : rank w1.enc < R := by
                     rw [← hR, e1]
-                    apply hp.stall w.enc .process rest w.bufSize hB
+                    apply hp.stall w.enc .process rest w.bufSize hops hB
                     · rw [← e2]; exact hok
                     · rw [← e2]; exact hc
                     · exact Or.inl ⟨rfl, fun h => hz (by simp [h])⟩
@@ -386,7 +386,7 @@ theorem flushOrClose_no_panic (E : Enc σ) (hs : EncSane E) (op : Op) : ∀ (fue
           · simp
           · exact ih w1 harm1
 
-theorem flushOrClose_terminates (E : Enc σ) (rank : σ → Nat) (hp : EncProgress E rank) (op : Op) (hop : op ≠ .process) :
+theorem flushOrClose_terminates (E : Enc σ) (ops : Op → Prop) (rank : σ → Nat) (hp : EncProgress E ops rank) (op : Op) (hops : ops op) (hop : op ≠ .process) :
     ∀ (R : Nat) (w : Writer σ), rank w.enc = R → 0 < w.bufSize →
       ∃ N, ∀ fuel, N ≤ fuel → (Writer.flushOrClose E op fuel w).2 ≠ .livelock := by
   intro R
@@ -416,12 +416,12 @@ theorem flushOrClose_terminates (E : Enc σ) (rank : σ → Nat) (hp : EncProgre
           by_cases hgo : (op = .flush ∧ E.hasMore w1.enc = true) ∨ (op ≠ .flush ∧ E.isFinished w1.enc = false)
           · have hdem : Demanded E w1.enc op [] := by
               rcases hgo with ⟨h1, h2⟩ | ⟨h1, h2⟩
-              · exact Or.inr (Or.inr ⟨h1, h2⟩)
-              · refine Or.inr (Or.inl ⟨?_, h2⟩)
+              · exact Or.inr (Or.inr ⟨h1, rfl, h2⟩)
+              · refine Or.inr (Or.inl ⟨?_, rfl, h2⟩)
                 cases op <;> simp_all
             have hlt : rank w1.enc < R := by
               rw [← hR, e1]
-              apply hp.stall w.enc op [] w.bufSize hB
+              apply hp.stall w.enc op [] w.bufSize hops hB
               · rw [← e2]; exact hok
               · rw [← e2]; exact hc
               · rw [← e1]; exact hdem
